@@ -1,8 +1,11 @@
 #!/bin/bash
 # trymutant.sh <patch.diff> <prop> [<prop>...] : apply a patch to /repo, run the quick checks, revert.
+# Evidence and replay files of these runs go to /dev/shm/trymutant (a rehearsal, not evidence).
 P=$1; shift
 git -C /repo apply "$P" || { echo "patch does not apply"; exit 2; }
 trap 'git -C /repo checkout -- . ; git -C /repo clean -fdq' EXIT
+mkdir -p /dev/shm/trymutant/ev /dev/shm/trymutant/rp
+export VERIF_EVIDENCE_DIR=/dev/shm/trymutant/ev VERIF_REPLAYS_DIR=/dev/shm/trymutant/rp
 for id in "$@"; do
   out=$(/verif/check $id --tier quick ${RUNS:+--runs $RUNS} 2>&1); rc=$?
   echo "== $id exit=$rc"; echo "$out" | grep -E "VIOLATION|class=|INFRA|BUILD-ERROR|tier=" | cut -c1-400 | head -8
